@@ -41,6 +41,7 @@ inductive Act where
   | change (v : State) | emitDup
   | subscribe | monFirst | monRecv | monExit
   | wRead | wStore (k : Nat)
+  | wStoreB (k : Nat)                -- the post-reload store: broadcasts when it changes the entry (repaired code, C06-F3)
   | otherBcast                       -- another runnable's monitor broadcasts (snapshot of the whole map)
   | cancel
   deriving DecidableEq, Repr
@@ -80,6 +81,11 @@ def step (s : St) : Act → Option St
   | .wStore k =>
     match s.pend[k]? with
     | some v => some { s with cache := some v, pend := s.pend.eraseIdx k }
+    | none => none
+  | .wStoreB k =>
+    match s.pend[k]? with
+    | some v => some { s with cache := some v, pend := s.pend.eraseIdx k,
+                              snap := if s.cache = some v then s.snap else some v }
     | none => none
   | .otherBcast => some { s with snap := s.cache }
   | .cancel => some { s with ctx := true }
